@@ -376,7 +376,7 @@ func TestC09_Scaling(t *testing.T) {
 		}
 		c.Cases(len(sizes))
 		call := run.Call{API: "search", Expr: "family:" + f.name}
-		run.Watch(c, "scaling", call)
+		run.WatchAs(c, "scaling", "custom:c09-scaling", mustJSON(map[string]any{"sizes": sizes}), call)
 		if msg := c09Scaling(f, sizes); msg != "" {
 			c.Fail(t, run.Replay{Check: "scaling", Kind: "custom:c09-scaling", Calls: []run.Call{call}, Message: msg, Extra: mustJSON(map[string]any{"sizes": sizes})}, f.name)
 			return
